@@ -550,10 +550,16 @@ def _task_live(task):
         res.count('states')
     # a busy server: the keyring holds the cookies of many other exchanges
     # ahead of and behind the one this client is asked for
-    for before, after in [(b, a) for b in BUSY for a in (0, 3)] + \
-            [(0, a) for a in BUSY[3:]]:
+    modes = (0o700, 0o711, 0o710, 0o701)
+    for bi, (before, after) in enumerate(
+            [(b, a) for b in BUSY for a in (0, 3)] +
+            [(0, a) for a in BUSY[3:]]):
         try:
             rotate_cookie(b'busy5ecret', before, after)
+            # the keyring directory must not be readable or writable by
+            # others; search permission for them is allowed (what libdbus
+            # checks: mode & 066)
+            os.chmod(scratch_keyring(), modes[bi % 4])
             for unix in (False, True):
                 done, tr, viol, n = run_handshake(
                     (b'DBUS_COOKIE_SHA1',), b'AGREE_UNIX_FD', False, unix)
@@ -563,7 +569,8 @@ def _task_live(task):
                 res.count('nontrivial')
                 res.count('states')
                 rep = {'part': 'live-busy', 'unix': unix,
-                       'before': before, 'after': after}
+                       'before': before, 'after': after,
+                       'mode': modes[bi % 4]}
                 for sig, what in viol:
                     res.violation(sig + '/busy-keyring', what, rep,
                                   size=before + after)
@@ -571,12 +578,14 @@ def _task_live(task):
                     res.violation(
                         '%s/live/incomplete/busy-keyring/%s'
                         % (PROP, 'unix' if unix else 'tcp'),
-                        'cookie-only server whose keyring file holds %d '
+                        'cookie-only server whose keyring file (directory '
+                        'mode %o) holds %d '
                         'cookies ahead of and %d behind the one named in '
                         'the challenge: the handshake did not complete: %r'
-                        % (before, after, tr[-5:]), rep,
+                        % (modes[bi % 4], before, after, tr[-5:]), rep,
                         size=before + after)
         finally:
+            os.chmod(scratch_keyring(), 0o700)
             rotate_cookie(COOKIE)
     # the application reconfigures the mechanism list while a handshake is in
     # flight
@@ -802,10 +811,12 @@ def replay(data):
     if data.get('part') == 'live-busy':
         try:
             rotate_cookie(b'busy5ecret', data['before'], data['after'])
+            os.chmod(scratch_keyring(), data.get('mode', 0o700))
             done, tr, viol, _ = run_handshake(
                 (b'DBUS_COOKIE_SHA1',), b'AGREE_UNIX_FD', False,
                 data['unix'])
         finally:
+            os.chmod(scratch_keyring(), 0o700)
             rotate_cookie(COOKIE)
         out = list(viol)
         if not done:
